@@ -154,7 +154,7 @@ class World:
             return bytes(v)
         ty = self.types[t]
         if ty["kind"] == "enum":
-            return self.top_class(t)(unl(v))
+            return unl(v) if getattr(self, "enum_as_int", False) else self.top_class(t)(unl(v))
         return self.build(v, salt)
 
     def build(self, obj, salt=0):
@@ -288,11 +288,14 @@ class World:
     def run_ser(self, c):
         out = {"ctor_exc": "", "exc": "", "bytes": [], "san_end": None, "calls": []}
         cls = self.top_class(c["prog"])
+        self.enum_as_int = bool(c.get("enum_as_int"))       # enum-typed fields given as plain integers (the constructors accept them)
         try:
             obj = self.build(c["obj"], c.get("salt", 0))
         except Exception as e:
             out["ctor_exc"] = type(e).__name__ + ": " + str(e)[:100]
             return out
+        finally:
+            self.enum_as_int = False
         w = self.faulty_writer(c.get("fuel", -1))
         w.string_sanitization_mode = bool(c.get("san0", False))
         self.calls = []
